@@ -350,7 +350,7 @@ func runLibrary(root string, rootContent []byte, o Opts) (res Result) {
 		n, site, msg, origin := simrt.RecoveredRuntimeErrors()
 		res.RecoveredRuntime, res.RecoveredRuntimeSite, res.RecoveredRuntimeMsg = n, int(site), msg
 		res.RecoveredRuntimeOrigin = strings.TrimPrefix(origin, "github.com/jsightapi/")
-		if simrt.FS != nil {
+		if simrt.FS != nil && !simrt.Scheduling() {
 			res.FSCalls = simrt.FS.Calls
 		}
 	}()
